@@ -25,7 +25,7 @@
 (***************************************************************************)
 EXTENDS Heap
 
-IsDe == ~Idle /\ op.name = "deserialize"
+IsDe == ~Idle /\ op.name \in {"deserialize", "deserialize_in_place"}
 
 SerOK(r) ==
     /\ r.tuple_len = r.n                       \* serialize_tuple(N): fixed size, no length prefix
@@ -91,8 +91,35 @@ ScriptedOkRequired ==
 \* op.truthful = (no element of the input is unparsable)
 OpaqueOk == op.arg = op.n /\ op.truthful
 
+(* Deserialize::deserialize_in_place(d, &mut place) - serde's hidden entry point, by default `*place = deserialize(d)?'.
+   Same outcome rule.  Ok: the place holds exactly the N materialised elements and everything it held before has been
+   dropped.  Err: the place is still a valid array made of elements it held before and of materialised ones, each at
+   most once; every other such element has been dropped (scripted sources only).                                    *)
+RetDeInPlace(r) ==
+    /\ IsDe /\ op.name = "deserialize_in_place" /\ op.phase = "idle" /\ op.okind # "opaque"
+    /\ r.vals = <<>> /\ r.outs = <<>>
+    /\ Len(r.obs) = 1 /\ r.obs[1].h = op.recv[1]
+    /\ LET w == r.obs[1].items
+           undropped == SeqRange(op.got) \ op.gdropped
+       IN
+       /\ NoDup(w) /\ Len(w) = op.n
+       /\ IF r.err
+          THEN /\ ~ScriptedOkRequired
+               /\ Tracked => SeqRange(w) = OwedIn(ReplacedScope) \cup undropped
+          ELSE /\ ScriptedOkAllowed /\ op.gdropped = {}
+               /\ w = op.got
+               /\ OwedIn(ReplacedScope) = {}
+       /\ Tracked => AllLive(w)       \* (without destructors nothing is observable: what the place keeps is simply alive)
+       /\ pool' = [pool EXCEPT ![op.recv[1]].items = w]
+       /\ owed' = Restrict(owed, DOMAIN owed \ SeqRange(w))
+       /\ life' = IF Tracked THEN life
+                  ELSE [e \in DOMAIN life |-> IF e \in SeqRange(op.got) \ SeqRange(w) THEN "dropped"
+                                              ELSE IF e \in SeqRange(w) THEN "live" ELSE life[e]]
+    /\ op' = NoOp
+    /\ UNCHANGED <<loose, heap, cfg>>
+
 RetDe(r) ==
-    /\ IsDe /\ op.phase = "idle"
+    /\ IsDe /\ op.name = "deserialize" /\ op.phase = "idle"
     /\ r.vals = <<>> /\ r.obs = <<>>
     /\ IF r.err
        THEN /\ r.outs = <<>>
